@@ -15,7 +15,8 @@ GEN = ["GenServer"]
 ASSUMPTIONS = [
     "Python attribute resolution (instance dict / class MRO / data descriptors first) is as modelled by inst_lookup/class_lookup",
     "member bodies are arbitrary code: modelled as an opaque effect (member, accessor); helper objects stored in attributes are not callable",
-    "classes that define attribute hooks (__getattr__ ...) have those hooks run by the interpreter on failed lookups; only invocation *as the requested member* counts as reaching the member",
+    "a class's own __getattr__/__getattribute__ hook counts as 'code of the target object' when the gate's getattr(obj, name) invokes it for a requested name (open finding attribute-hook-ran); invocations the interpreter makes for __class__/__dict__ on any instance are not attributed to the request",
+    "a helper's __call__ is modelled as an opaque effect; helpers live in instance attributes",
     "the serializer delivers the member name unchanged (non-strings stay non-strings)",
 ]
 IMPORTS = "From V Require Import Model.StrFun Model.Expose Gen.GenServer Harness.Cmp Harness.H02."
@@ -31,12 +32,15 @@ BASELINE = [
 BASESET = frozenset(BASELINE)
 # reserved names that can be given to a generated method without breaking the interpreter's own use of them
 SAFE_HOOKS = [n for n in BASELINE if n not in ("__new__", "__class__", "__module__", "__weakref__", "__init_subclass__",
-                                                "__subclasshook__", "__del__", "__getattribute__")]
+                                                "__subclasshook__", "__del__", "__getattribute__", "__getattr__")]
+HOOK_NAMES = ("__getattr__", "__getattribute__")      # members of kind "hook"
 PUBLIC_DUNDERS = ["__len__", "__dunder__", "__p__", "__value__"]
 STEMS = ["alpha", "beta", "gamma", "run", "value", "méthode", "x", "get"]
-METHOD_KINDS = c02impl.METHOD_KINDS
+METHOD_KINDS = c02impl.METHOD_KINDS + ("hook",)      # a hook is a function in the class body like any method
 SIG_GETTER = "unexposed-getter-ran-on-call"
 SIG_PRIVPROP = "private-property-served"
+SIG_HELPER = "callable-exposed-helper-called"
+SIG_HOOK = "attribute-hook-ran"
 
 
 def is_dunder(n):
@@ -76,12 +80,34 @@ def inst_lookup(shape, n):
     return a if a is not None else c
 
 
-def explicitly_exposed(shape, m):
+def has_del(m):
+    return m["del"] if m.get("del") is not None else not (m.get("get") or m.get("set"))
+
+
+def accessors(m):
+    """[(present, own mark on the accessor function)] in the order fget, fset, fdel"""
+    return [(bool(m.get("get")), bool(m.get("gmark"))), (bool(m.get("set")), bool(m.get("smark"))), (has_del(m), bool(m.get("dmark")))]
+
+
+def explicitly_exposed(shape, m, by_rule=False):
+    """by_rule=False: the property's reading — some explicit @expose on the member (function, property object or one
+    of its accessor functions) or on the class that defines it.  by_rule=True: Pyro5's rule — for a property the mark
+    must sit on its first accessor (fget or fset or fdel)."""
     if m["kind"] not in METHOD_KINDS and m["kind"] != "prop":
         return False
-    own = m["mark"] and not oracle_private(m.get("fname") or m["name"])     # @expose refuses private functions
+    fname_ok = not oracle_private(m.get("fname") or m["name"])     # @expose refuses private functions
     byclass = shape[m["in"] + "_exposed"] and not oracle_private(m["name"])
-    return bool(own or byclass)
+    if m["kind"] == "prop":
+        acc = [a for a in accessors(m) if a[0]]
+        if not acc:
+            return False
+        if by_rule:
+            own = acc[0][1] or m["mark"]
+        else:
+            own = m["mark"] or any(a[1] for a in acc)
+    else:
+        own = m["mark"]
+    return bool((own and fname_ok) or byclass)
 
 
 def servable(shape, kind, n):
@@ -93,14 +119,14 @@ def servable(shape, kind, n):
         if i is None:
             return None
         m = shape["members"][i]
-        if m["kind"] in METHOD_KINDS and explicitly_exposed(shape, m):
+        if m["kind"] in METHOD_KINDS and explicitly_exposed(shape, m, True):
             return (i, "call")
         return None
     i = class_lookup(shape, n)
     if i is None:
         return None
     m = shape["members"][i]
-    if m["kind"] == "prop" and explicitly_exposed(shape, m):
+    if m["kind"] == "prop" and explicitly_exposed(shape, m, True):
         if kind == "getattr" and m["get"]:
             return (i, "get")
         if kind == "setattr" and m["set"]:
@@ -109,6 +135,56 @@ def servable(shape, kind, n):
 
 
 # ---------------------------------------------------------------- oracle
+ACC_OF_KIND = {"call": "call", "batch": "call", "getattr": "get", "setattr": "set"}
+
+
+def loosely_allowed(shape, kind, names, e):
+    """the property allows this effect although Pyro5's first-accessor rule would not serve it: an accessor of a
+    public property that carries SOME explicit mark, asked for by an attribute request"""
+    mid, acc = e
+    m = shape["members"][mid]
+    return (m["kind"] == "prop" and kind in ("getattr", "setattr") and acc == ACC_OF_KIND[kind] and names and names[0] == m["name"]
+            and class_lookup(shape, m["name"]) == mid and not oracle_private(m["name"]) and explicitly_exposed(shape, m, False)
+            and bool(m.get("get") if acc == "get" else m.get("set")))
+
+
+def expected_metadata(shape):
+    """the set of names the property allows the daemon to advertise / requires it to advertise:
+    (must_methods, must_attrs, may_attrs) computed from the shape alone"""
+    methods, attrs, may = set(), set(), set()
+    for m in shape["members"]:
+        n = m["name"]
+        if not class_member(m) or oracle_private(n):
+            continue
+        i = class_lookup(shape, n)
+        mm = shape["members"][i]
+        if mm["kind"] in METHOD_KINDS and explicitly_exposed(shape, mm, True):
+            methods.add(n)
+        elif mm["kind"] == "prop":
+            if explicitly_exposed(shape, mm, True):
+                attrs.add(n)
+            elif explicitly_exposed(shape, mm, False):
+                may.add(n)
+    return methods, attrs, may
+
+
+def oracle_metadata(shape, md, where):
+    bad = []
+    methods, attrs, may = expected_metadata(shape)
+    if set(md["methods"]) != methods:
+        bad.append(("metadata-methods-mismatch", "%s: advertised methods %s, exposed public methods %s" % (where, sorted(md["methods"]), sorted(methods))))
+    if not (attrs <= set(md["attrs"]) <= attrs | may):
+        bad.append(("metadata-attrs-mismatch", "%s: advertised attrs %s, exposed public properties %s" % (where, sorted(md["attrs"]), sorted(attrs))))
+    for n in md["oneway"]:
+        if n not in md["methods"]:
+            bad.append(("oneway-not-a-method", "%s: get_metadata lists %r as oneway but not as a method" % (where, n)))
+    for n in list(md["methods"]) + list(md["attrs"]) + list(md["oneway"]):
+        if oracle_private(n):
+            bad.append(("private-name-advertised", "%s: get_metadata lists the private name %r" % (where, n)))
+            break
+    return bad
+
+
 def oracle(case, obs):
     """[(signature, what, reduced case)] — the property stated over the implementation's observations"""
     shape = case["shape"]
@@ -126,11 +202,15 @@ def oracle(case, obs):
         kind = r["kind"]
         # expected behaviour, by the property
         exp_log, exp_ok = [], True
+        loose_tail = []      # after a batch member that called a helper object (open finding) both continuations are accepted
         if kind == "batch":
-            for n in names:
+            for pos, n in enumerate(names):
                 sv = servable(shape, kind, n)
                 if sv is None:
                     exp_ok = False
+                    hi = inst_lookup(shape, n) if isinstance(n, str) and not oracle_private(n) else None
+                    if hi is not None and mem[hi]["kind"] == "helper" and mem[hi].get("hexp") and mem[hi].get("hcall"):
+                        loose_tail = [servable(shape, kind, x) for x in names[pos + 1:]]
                     break
                 exp_log.append([sv[0], sv[1]])
         else:
@@ -140,21 +220,40 @@ def oracle(case, obs):
             else:
                 exp_log.append([sv[0], sv[1]])
         log = o["log"]
+        strs = [n for n in names if isinstance(n, str)]
         # (1) code that ran must be an exposed, non-private member denoted by a requested name
         budget = [list(e) for e in exp_log]
+        tolerated = False       # the reply of this request is part of a recorded finding / of a looser-than-Pyro5 allowance
         for e in log:
             if e in budget:
                 budget.remove(e)
                 continue
             mid, acc = e
             m = mem[mid]
-            if acc == "helper":
+            if loosely_allowed(shape, kind, names, e):
+                tolerated = True
+            elif tuple(e) in [tuple(x) for x in loose_tail if x]:
+                tolerated = True
+            elif acc == "helper":
                 bad.append(("nested-helper-reached", "a method of the nested helper object %r ran for request %r" % (m["name"], names), sub([r])))
+            elif acc == "hcall":
+                if (kind in ("call", "batch") and m["kind"] == "helper" and m.get("hexp") and m.get("hcall") and m["name"] in strs
+                        and not oracle_private(m["name"]) and inst_lookup(shape, m["name"]) == mid):
+                    tolerated = True
+                    bad.append((SIG_HELPER, "a %s request for the plain attribute %r called the helper object stored there (callable instance of an @expose'd class)" % (kind, m["name"]), sub([r])))
+                else:
+                    bad.append(("nested-helper-reached", "the helper object %r was called for request %s %r" % (m["name"], kind, names), sub([r])))
+            elif acc == "hook":
+                if kind in ("call", "batch") and m["kind"] == "hook" and any(not oracle_private(n) for n in strs):
+                    bad.append((SIG_HOOK, "a %s request for %r ran the class's own %s hook" % (kind, names, m["name"]), sub([r])))
+                else:
+                    bad.append(("attribute-hook-ran-for-refusable-name", "request %s %r ran the class's %s hook" % (kind, names, m["name"]), sub([r])))
             elif acc == "get" and kind in ("call", "batch") and m["kind"] == "prop" and m["name"] in names:
                 if explicitly_exposed(shape, m) and not oracle_private(m["name"]):
-                    continue      # getter of an exposed public property: allowed to run (the request is then refused)
-                bad.append((SIG_GETTER, "a %s request for %r ran the getter of the unexposed property before refusing" % (kind, m["name"]), sub([r])))
+                    continue      # getter of an exposed public property: the property lets it run (the request is then refused)
+                bad.append((SIG_GETTER, "a %s request for %r ran the getter of the property before refusing" % (kind, m["name"]), sub([r])))
             elif m["name"] in names and oracle_private(m["name"]) and m["kind"] == "prop" and kind in ("getattr", "setattr"):
+                tolerated = True
                 bad.append((SIG_PRIVPROP, "a %s request reached the property bound to the private name %r" % (kind, m["name"]), sub([r])))
             elif m["name"] in names and oracle_private(m["name"]):
                 bad.append(("private-member-ran", "request %s %r ran the private member %r" % (kind, names, m["name"]), sub([r])))
@@ -164,13 +263,12 @@ def oracle(case, obs):
                 bad.append(("member-ran-twice", "request %s %r ran member %r more than once" % (kind, names, m["name"]), sub([r])))
             else:
                 bad.append(("wrong-member-ran", "request %s %r ran member %r via %s" % (kind, names, m["name"], acc), sub([r])))
-        known_here = any(b[2]["reqs"] == [r] and b[0] == SIG_PRIVPROP for b in bad)
         # (2) reply discipline
-        if known_here:
-            pass      # the reply of a request that already reached a private property is part of that finding
+        if tolerated:
+            pass
         elif o["raised"]:
             bad.append(("handler-raised", "handleRequest raised %s for request %s %r" % (o["raised"], kind, names), sub([r])))
-        if known_here:
+        if tolerated:
             pass
         elif r["oneway"]:
             if o["reply"] != "none":
@@ -190,19 +288,20 @@ def oracle(case, obs):
         if o.get("extra_reply_bytes"):
             bad.append(("more-than-one-reply", "request %s %r produced more than one reply" % (kind, names), sub([r])))
         if kind != "batch" and isinstance(names[0], str):
-            ran = any(mem[e[0]]["name"] == names[0] and e[1] == {"call": "call", "getattr": "get", "setattr": "set"}[kind] for e in log) \
-                and o["reply"] in ("result", "none")
+            ran = any(mem[e[0]]["name"] == names[0] and e[1] in (ACC_OF_KIND[kind], "hcall") for e in log) and o["reply"] in ("result", "none")
             per_name.setdefault(names[0], {}).setdefault(kind, []).append((ran, r))
-    # (4) advertised == served
+    # (4) advertised == served, from the observations themselves
     md = obs["meta"]
     for n, kinds in per_name.items():
+        some = [x[1] for kk in kinds.values() for x in kk][:2]
         if oracle_private(n):
             if n in md["methods"] or n in md["attrs"] or n in md["oneway"]:
-                bad.append(("private-name-advertised", "get_metadata lists the private name %r" % n,
-                            sub([x[1] for kk in kinds.values() for x in kk][:2])))
+                bad.append(("private-name-advertised", "get_metadata lists the private name %r" % n, sub(some)))
             continue
-        shadowed = inst_attr(shape, n) is not None and class_lookup(shape, n) is not None
-        if "call" in kinds and not shadowed:
+        ia = inst_attr(shape, n)
+        shadowed = ia is not None and class_lookup(shape, n) is not None
+        helper_served = ia is not None and mem[ia]["kind"] == "helper" and mem[ia].get("hexp") and mem[ia].get("hcall")
+        if "call" in kinds and not shadowed and not helper_served:
             served = any(x[0] for x in kinds["call"])
             allserved = all(x[0] for x in kinds["call"])
             if (n in md["methods"]) != served or served != allserved:
@@ -215,9 +314,29 @@ def oracle(case, obs):
             if (n in md["attrs"]) != served and not delonly:
                 bad.append(("metadata-attrs-mismatch", "attribute %r: advertised=%s served=%s" % (n, n in md["attrs"], served),
                             sub([x[1] for x in kinds["getattr"] + kinds["setattr"]])))
-    for n in md["oneway"]:
-        if n not in md["methods"]:
-            bad.append(("oneway-not-a-method", "get_metadata lists %r as oneway but not as a method" % n, sub([])))
+    # (5) advertised == the exposed public members of the class, from the shape
+    for sig, what in oracle_metadata(shape, md, "get_metadata"):
+        bad.append((sig, what, sub([])))
+    return bad
+
+
+def oracle_history(case, obs):
+    """a history over several registered objects: every get_metadata answer must be the member list of THAT object's
+    class, and every request is judged as in the single-object oracle"""
+    bad = []
+    shapes, objects = case["shapes"], case["objects"]
+    for k, (op, o) in enumerate(zip(case["ops"], obs["ops"])):
+        sh = shapes[objects[op["obj"]]]
+        if op["op"] == "meta":
+            for sig, what in oracle_metadata(sh, o["meta"], "get_metadata of object %d (class %d) at step %d" % (op["obj"], objects[op["obj"]], k)):
+                bad.append((sig, what, case))
+        else:
+            methods, attrs, may = expected_metadata(sh)
+            pseudo = {"kind": "shape", "shape": sh, "ser": case.get("ser", "serpent"), "reqs": [op["req"]]}
+            fake_md = {"methods": sorted(methods), "attrs": sorted(attrs), "oneway": []}
+            for sig, what, _ in oracle(pseudo, {"meta": fake_md, "reqs": [o]}):
+                if not sig.startswith("metadata-"):
+                    bad.append((sig, what + " (object %d, step %d)" % (op["obj"], k), case))
     return bad
 
 
@@ -228,9 +347,11 @@ KIND = {"method": "KMethod", "static": "KStatic", "classm": "KClassM", "cattr": 
 def c_member(i, m):
     k = m["kind"]
     if k == "prop":
-        kk = "(KProp %s %s)" % (cbool(m["get"]), cbool(m["set"]))
+        kk = "(KProp %s %s %s)" % tuple(("(Some %s)" % cbool(mk) if pres else "None") for pres, mk in accessors(m))
     elif k == "helper":
-        kk = "(KHelper %s)" % cbool(m.get("hexp", False))
+        kk = "(KHelper %s %s)" % (cbool(m.get("hexp", False)), cbool(m.get("hcall", False)))
+    elif k == "hook":
+        kk = "(KHook %s)" % {"__getattr__": "HGetattr", "__getattribute__": "HGetattribute"}[m["name"]]
     else:
         kk = KIND[k]
     return "{| m_id := %s; m_name := %s; m_kind := %s; m_in := %s; m_mark := %s; m_fname := %s; m_oneway := %s |}" % (
@@ -248,7 +369,7 @@ def c_name(n):
 
 
 RK = {"call": "RCall", "batch": "RBatch", "getattr": "RGet", "setattr": "RSet"}
-ACC = {"call": "ACall", "get": "AGet", "set": "ASet"}
+ACC = {"call": "ACall", "get": "AGet", "set": "ASet", "hcall": "AHelper", "hook": "AHook"}
 REP = {"result": "RepResult", "error": "RepError", "none": "RepNone"}
 
 
@@ -259,12 +380,30 @@ def c_req(r, o):
 
 
 def c_quirks(q):
-    return "{| q_call_runs_getter := %s; q_attr_private_unchecked := %s |}" % (cbool(q[0]), cbool(q[1]))
+    return "{| q_call_runs_getter := %s; q_attr_private_unchecked := %s; q_helper_served := %s; q_hooks_run := %s |}" % tuple(cbool(x) for x in q)
+
+
+def c_history(case, obs, q):
+    ops = []
+    for op, o in zip(case["ops"], obs["ops"]):
+        if op["op"] == "meta":
+            md = o["meta"]
+            ops.append("HMeta %s %s %s %s" % (cnat(op["obj"]), clist([ctext(x) for x in md["methods"]]),
+                                             clist([ctext(x) for x in md["oneway"]]), clist([ctext(x) for x in md["attrs"]])))
+        elif o["wire"] == "ok":
+            r = op["req"]
+            ops.append("HReq %s {| r_kind := %s; r_oneway := %s; r_names := %s |} {| o_reply := %s; o_log := %s |}" % (
+                cnat(op["obj"]), RK[r["kind"]], cbool(r["oneway"]), clist([c_name(n) for n in r["names"]]), REP[o["reply"]],
+                clist(["(%s, %s)" % (cnat(e[0]), ACC[e[1]]) for e in o["log"]])))
+    return "HC {| h_quirks := %s; h_classes := %s; h_objects := %s; h_ops := %s |}" % (
+        c_quirks(q), clist([c_shape(sh) for sh in case["shapes"]]), clist([cnat(i) for i in case["objects"]]), clist(ops))
 
 
 def c_case(case, obs, q):
     if case["kind"] == "private":
         return "PC %s %s" % (ctext(case["name"]), cbool(obs["private"]))
+    if case["kind"] == "history":
+        return c_history(case, obs, q)
     pairs = [(r, o) for r, o in zip(case["reqs"], obs["reqs"]) if o["wire"] == "ok"]
     md = obs["meta"]
     return "SC {| c_quirks := %s; c_shape := %s; c_methods := %s; c_oneway := %s; c_attrs := %s; c_refused := %s; c_reqs := %s |}" % (
@@ -302,7 +441,7 @@ def gen_shape(rng):
             name = rng.choice(SAFE_HOOKS)
         else:
             name = "__" + stem + "__"
-        kind = rng.choice(["method"] * 5 + ["prop"] * 4 + ["static", "classm", "cattr", "iattr", "iattr", "helper"])
+        kind = rng.choice(["method"] * 5 + ["prop"] * 4 + ["static", "static", "classm", "classm", "cattr", "iattr", "iattr", "helper", "helper"])
         if is_dunder(name) and kind != "method":      # a number called __init__ / __eq__ breaks the interpreter, not Pyro
             kind = "method"
         if kind in ("iattr", "helper") and (name.startswith("__") or name in BASESET):
@@ -323,10 +462,61 @@ def gen_shape(rng):
             m["oneway"] = rng.random() < 0.2
         if kind == "prop":
             m["get"], m["set"] = rng.choice([(True, True), (True, True), (True, False), (True, False), (False, True), (False, False)])
+            m["del"] = rng.random() < 0.3 or not (m["get"] or m["set"])
+            if rng.random() < 0.45:
+                # @expose below @property / @x.setter / @x.deleter, i.e. on single accessor functions
+                m["mark"] = rng.random() < 0.2
+                m["gmark"] = m["get"] and rng.random() < 0.35
+                m["smark"] = m["set"] and rng.random() < 0.5
+                m["dmark"] = m["del"] and rng.random() < 0.4
         if kind == "helper":
-            m["hexp"] = rng.random() < 0.5
+            m["hexp"] = rng.random() < 0.6
+            m["hcall"] = rng.random() < 0.5
+            m["hbase"] = rng.random() < 0.3
         members.append(m)
+    if rng.random() < 0.15:
+        # the class (or its base) defines its own attribute hook(s)
+        for hn in rng.sample(HOOK_NAMES, rng.choice([1, 1, 2])):
+            where = rng.choice(["base", "sub"])
+            members.insert(rng.randrange(len(members) + 1),
+                           {"name": hn, "kind": "hook", "in": where, "mark": rng.random() < 0.3, "fname": hn, "oneway": False,
+                            "get": True, "set": True, "hexp": False})
     return {"base_exposed": rng.random() < 0.4, "sub_exposed": rng.random() < 0.4, "members": members}
+
+
+def gen_history(rng, reserved):
+    """several classes that all carry the same __name__/__qualname__ (some differing in one member only), several
+    registered objects, and an interleaving of get_metadata calls and requests"""
+    k = rng.choice([2, 2, 3, 4])
+    shapes = [gen_shape(rng)]
+    while len(shapes) < k:
+        if rng.random() < 0.5:
+            # a sibling: same members, exposure decided differently
+            sib = json.loads(json.dumps(rng.choice(shapes)))
+            sib["base_exposed"], sib["sub_exposed"] = rng.random() < 0.5, rng.random() < 0.5
+            for m in sib["members"]:
+                if m["kind"] in c02impl.METHOD_KINDS + ("prop",) and rng.random() < 0.5:
+                    m["mark"] = not m["mark"]
+            shapes.append(sib)
+        else:
+            shapes.append(gen_shape(rng))
+    objects = [rng.randrange(k) for _ in range(rng.choice([2, 3, 4, 5]))]
+    for ci in range(k):
+        if ci not in objects:
+            objects.append(ci)
+    ops = []
+    for _ in range(rng.choice([6, 9, 12, 16])):
+        i = rng.randrange(len(objects))
+        if rng.random() < 0.5:
+            ops.append({"op": "meta", "obj": i})
+        else:
+            sh = shapes[objects[i]]
+            pool = [m["name"] for m in sh["members"]] or ["x"]
+            other = [m["name"] for s2 in shapes for m in s2["members"]]
+            n = rng.choice(pool * 3 + other + ["nonexistent", "__class__"])
+            kind = rng.choice(["call", "call", "batch", "getattr", "setattr"])
+            ops.append({"op": "req", "obj": i, "req": {"kind": kind, "oneway": rng.random() < 0.2, "names": [n]}})
+    return {"kind": "history", "shapes": shapes, "objects": objects, "ops": ops, "ser": "serpent"}
 
 
 def gen_requests(rng, shape, ser, reserved, volume):
@@ -339,7 +529,7 @@ def gen_requests(rng, shape, ser, reserved, volume):
         names.extend(rng.sample(variants(stem), 3))
     for m in shape["members"]:
         if m["kind"] == "helper":
-            names.extend([m["name"] + ".hm", m["name"] + ".value"])
+            names.extend([m["name"] + ".hm", m["name"] + ".value", m["name"] + ".__call__"])
     names.extend(rng.sample(["a.b", "", "nonexistent", "hm", "_pyroId", "_pyroDaemon", "__dict__", "__doc__", "__slots__",
                              "__iter__", "__len__", "_", "__", "____", "_____"] + mnames, 4))
     names.extend(["__class__", "__init__"])
@@ -377,7 +567,13 @@ def witness_cases():
     w2 = {"kind": "shape", "ser": "serpent", "shape": {"base_exposed": False, "sub_exposed": False, "members": [
         M("_hidden", "prop", mark=True, fname="visible")]},
         "reqs": [{"kind": "getattr", "oneway": False, "names": ["_hidden"]}]}
-    return w1, w2
+    w3 = {"kind": "shape", "ser": "serpent", "shape": {"base_exposed": False, "sub_exposed": False, "members": [
+        M("ping", "method", mark=True), M("tool", "helper", hexp=True, hcall=True)]},
+        "reqs": [{"kind": "call", "oneway": False, "names": ["tool"]}]}
+    w4 = {"kind": "shape", "ser": "serpent", "shape": {"base_exposed": False, "sub_exposed": False, "members": [
+        M("ping", "method", mark=True), M("__getattr__", "hook")]},
+        "reqs": [{"kind": "call", "oneway": False, "names": ["any"]}]}
+    return w1, w2, w3, w4
 
 
 def targeted(reserved):
@@ -388,6 +584,7 @@ def targeted(reserved):
     out = list(witness_cases())
     allkinds = lambda names, ow=False: [{"kind": k, "oneway": ow, "names": [n]} for n in names for k in ("call", "batch", "getattr", "setattr")]
     hooks = [M(n, "method", **{"in": "base" if i % 2 else "sub"}) for i, n in enumerate(SAFE_HOOKS)]
+    hooks += [M("__getattr__", "hook", **{"in": "base"}), M("__getattribute__", "hook")]
     names = sorted(set(reserved) | BASESET)
     out.append({"kind": "shape", "ser": "serpent", "shape": {"base_exposed": True, "sub_exposed": True,
                 "members": hooks + [M("ok", "method"), M("__len__", "method")]}, "reqs": allkinds(names + ["ok", "__len__"])})
@@ -406,6 +603,37 @@ def targeted(reserved):
                     "reqs": allkinds(["f", "g", "h", "p", "q", "hp", "hn", "hp.hm", "hn.hm", "c", "c.real", "hp.value"]) +
                     [{"kind": "batch", "oneway": False, "names": ["f", "h", "g", "f"]}, {"kind": "batch", "oneway": True, "names": ["f", "q", "f"]},
                      {"kind": "batch", "oneway": False, "names": []}, {"kind": "batch", "oneway": False, "names": ["f", "f", "hp", "f"]}]})
+    # properties marked on single accessor functions; callable helpers; hooks in base / subclass
+    acc = [M("a", "prop", smark=True), M("b", "prop", gmark=True), M("c", "prop", get=False, smark=True), M("d", "prop", get=False, set=False, dmark=True),
+           M("e", "prop", mark=True, **{"del": True}), M("f", "prop", get=False, set=True, mark=True, **{"in": "base"}),
+           M("g", "prop", smark=True, fname="_g"), M("h", "prop", dmark=True, **{"del": True}), M("i", "prop", **{"in": "base"}),
+           M("j", "prop", gmark=True, **{"in": "base"}), M("j", "prop")]
+    for be, se in ((False, False), (True, False), (False, True)):
+        out.append({"kind": "shape", "ser": "serpent", "shape": {"base_exposed": be, "sub_exposed": se, "members": acc},
+                    "reqs": allkinds([m["name"] for m in acc[:-1]])})
+    hel = [M("ok", "method", mark=True), M("t1", "helper", hexp=True, hcall=True), M("t2", "helper", hexp=False, hcall=True),
+           M("t3", "helper", hexp=True, hcall=False), M("t4", "helper", hexp=True, hcall=True, hbase=True), M("_t5", "helper", hexp=True, hcall=True),
+           M("ok", "helper", hexp=True, hcall=True), M("st", "static", **{"in": "base"}), M("cm", "classm", **{"in": "base"}),
+           M("st2", "static", mark=True, **{"in": "base"}), M("cm2", "classm", mark=True)]
+    for be, se in ((False, False), (True, False), (False, True)):
+        out.append({"kind": "shape", "ser": "serpent", "shape": {"base_exposed": be, "sub_exposed": se, "members": hel},
+                    "reqs": allkinds([m["name"] for m in hel] + ["t1.hm", "t1.__call__", "t4.hm"]) + allkinds(["t1", "t2", "st", "cm"], True) +
+                    [{"kind": "batch", "oneway": False, "names": ["cm2", "t1", "t3", "cm2"]}]})
+    for hk in ([M("__getattr__", "hook")], [M("__getattribute__", "hook", **{"in": "base"})],
+               [M("__getattr__", "hook", **{"in": "base"}), M("__getattribute__", "hook"), M("__getattr__", "hook")]):
+        mem = [M("ok", "method", mark=True), M("no", "method"), M("p", "prop", mark=True), M("q", "prop"), M("ia", "iattr"), M("_x", "method")] + hk
+        out.append({"kind": "shape", "ser": "serpent", "shape": {"base_exposed": False, "sub_exposed": False, "members": mem},
+                    "reqs": allkinds(["ok", "no", "p", "q", "ia", "_x", "missing", "__class__", "__getattr__", "__getattribute__", "a.b", {"ns": "int"}]) +
+                    allkinds(["missing", "ok"], True) + [{"kind": "batch", "oneway": False, "names": ["ok", "missing", "ok"]}]})
+    # same-named classes in one daemon: two objects of one class, one of a sibling class
+    s1 = {"base_exposed": False, "sub_exposed": True, "members": [M("ok", "method"), M("p", "prop"), M("only1", "method")]}
+    s2 = {"base_exposed": False, "sub_exposed": False, "members": [M("ok", "method"), M("p", "prop", mark=True), M("only2", "method", mark=True)]}
+    mk = lambda i: {"op": "meta", "obj": i}
+    rq = lambda i, k, n: {"op": "req", "obj": i, "req": {"kind": k, "oneway": False, "names": [n]}}
+    for order in ([0, 2, 1], [2, 0, 1], [1, 2, 0]):
+        out.append({"kind": "history", "ser": "serpent", "shapes": [s1, s2], "objects": [0, 0, 1],
+                    "ops": [mk(i) for i in order] + [rq(0, "call", "ok"), rq(2, "call", "ok"), rq(2, "call", "only2"), rq(1, "call", "only2"),
+                                                    rq(2, "getattr", "p"), rq(0, "getattr", "p")] + [mk(i) for i in order]})
     return out
 
 
@@ -428,6 +656,8 @@ def gen_cases(ctx, reserved):
         shape = gen_shape(rng)
         ser = rng.choice(sers)
         cases.append({"kind": "shape", "shape": shape, "ser": ser, "reqs": gen_requests(rng, shape, ser, reserved, rng.choice([10, 16, 24]))})
+    for _ in range(ctx.n(60, 600)):
+        cases.append(gen_history(rng, reserved))
     return cases
 
 
@@ -450,19 +680,40 @@ def run_impl(rig, case):
     ser = case.get("ser", "serpent")
     if ser not in rig.serializers.serializers:
         ser = "serpent"
+    if case["kind"] == "history":
+        return rig.run_history(case["shapes"], case["objects"], case["ops"], ser)
     return rig.run_shape(case["shape"], case["reqs"], ser)
 
 
 def probe_quirks(rig):
-    w1, w2 = witness_cases()
-    o1, o2 = run_impl(rig, w1), run_impl(rig, w2)
-    return (bool(o1["reqs"][0]["log"]), bool(o2["reqs"][0]["log"]))
+    """which variant of the model the tree under test matches, learnt from the four recorded witnesses"""
+    return tuple(bool(run_impl(rig, w)["reqs"][0]["log"]) for w in witness_cases())
+
+
+QUIRK_NAMES = ("q_call_runs_getter", "q_attr_private_unchecked", "q_helper_served", "q_hooks_run")
 
 
 def reserved_of(ctx):
     from tools.gen import gen
     st = gen.regenerate(ctx.tree, only=["GenServer"])["GenServer"]
     return list(st["info"]["reserved"]) if st["ok"] else list(BASELINE)
+
+
+def judge(case, obs):
+    """oracle verdicts for any case kind: [(signature, what, reduced case)]"""
+    if case["kind"] == "private":
+        if obs["private"] is not None and oracle_private(case["name"]) and not obs["private"]:
+            return [("private-name-not-private", "is_private_attribute(%r) is False" % case["name"], case)]
+        return []
+    if case["kind"] == "history":
+        return oracle_history(case, obs)
+    return oracle(case, obs)
+
+
+def req_obs(case, obs):
+    if case["kind"] == "history":
+        return [(op["req"], o) for op, o in zip(case["ops"], obs["ops"]) if op["op"] == "req"]
+    return list(zip(case["reqs"], obs["reqs"]))
 
 
 def execute(ctx, rig, cases, model_ok, res, q, localise=True):
@@ -472,33 +723,42 @@ def execute(ctx, rig, cases, model_ok, res, q, localise=True):
         if case["kind"] == "private":
             res.seen(case, True)
             res.count("is_private:%s" % obs["private"])
-            n = case["name"]
             if obs["private"] is None:
                 res.mismatches.append({"component": "C02:is_private", "case": case, "impl": obs})
                 continue
-            if oracle_private(n) and not obs["private"]:
-                res.violations.append({"signature": "private-name-not-private", "what": "is_private_attribute(%r) is False" % n, "case": case})
         else:
-            for r, o in zip(case["reqs"], obs["reqs"]):
-                res.seen({"s": case["shape"], "r": r, "ser": case.get("ser")}, bool(o["log"]) or o["reply"] == "result")
+            shape_key = case.get("shape") or case.get("shapes")
+            for r, o in req_obs(case, obs):
+                res.seen({"s": shape_key, "r": r, "ser": case.get("ser")}, bool(o["log"]) or o["reply"] == "result")
                 res.count("%s%s:%s" % (r["kind"], "/oneway" if r["oneway"] else "", o["reply"] if o["wire"] == "ok" else "unserialisable"))
                 if o["log"]:
                     res.count("ran:" + ",".join(sorted(set(e[1] for e in o["log"]))))
-            res.count("members_%d" % min(len(case["shape"]["members"]), 9))
-            for sig, what, sub in oracle(case, obs):
-                res.violations.append({"signature": sig, "what": what, "case": sub})
-            badreqs = [(r, o) for r, o in zip(case["reqs"], obs["reqs"]) if o["wire"] == "ok" and not representable(o)]
+            if case["kind"] == "history":
+                nmeta = sum(1 for op in case["ops"] if op["op"] == "meta")
+                res.evaluations += nmeta
+                res.count("history:get_metadata", nmeta)
+                res.count("history_classes_%d" % len(case["shapes"]))
+            else:
+                res.count("members_%d" % min(len(case["shape"]["members"]), 9))
+                for m in case["shape"]["members"]:
+                    if m["kind"] in ("hook", "helper") or (m["kind"] == "prop" and (m.get("gmark") or m.get("smark") or m.get("dmark"))):
+                        res.count("shape_has:" + ("accessor-mark" if m["kind"] == "prop" else m["kind"]))
+            badreqs = [(r, o) for r, o in req_obs(case, obs) if o["wire"] == "ok" and not representable(o)]
             if badreqs:
-                res.mismatches.append({"component": "C02:outcome-vocabulary", "case": dict(case, reqs=[badreqs[0][0]]), "impl": badreqs[0][1]})
-                continue
+                res.mismatches.append({"component": "C02:outcome-vocabulary", "case": case, "impl": badreqs[0][1]})
+        for sig, what, sub in judge(case, obs):
+            res.violations.append({"signature": sig, "what": what, "case": sub})
+        if case["kind"] != "private" and any(o["wire"] == "ok" and not representable(o) for _, o in req_obs(case, obs)):
+            continue
         lits.append(c_case(case, obs, q))
         kept.append((case, obs))
     if model_ok and lits:
         bad = vlib.run_cases(ctx, "c", IMPORTS, "case", "check_case", lits, shard=60)
         for idx in bad:
             case, obs = kept[idx]
-            if case["kind"] == "private" or not localise or len(res.mismatches) >= 6:
-                res.mismatches.append({"component": "C02:" + ("is_private" if case["kind"] == "private" else "gate"), "case": case, "impl": obs})
+            if case["kind"] != "shape" or not localise or len(res.mismatches) >= 6:
+                comp = {"private": "is_private", "history": "history", "shape": "gate"}[case["kind"]]
+                res.mismatches.append({"component": "C02:" + comp, "case": case, "impl": obs})
                 continue
             # localise: which requests (or the metadata) disagree
             subs = [dict(case, reqs=[])] + [dict(case, reqs=[r]) for r in case["reqs"]]
@@ -513,12 +773,22 @@ def execute(ctx, rig, cases, model_ok, res, q, localise=True):
     return res
 
 
-RULE = ("seeded random class shapes (1-9 members: instance/static/class methods, properties with getter and/or setter, class and "
-        "instance attributes, helper objects; defined in base or registered subclass; own @expose / class-level @expose / none; "
-        "functions bound under other (private) names; reserved and public dunder names as members) x requested names (every member "
-        "name, _x/__x/__x__/unicode variants, reserved dunders, dotted paths, non-strings) x {call, batch, getattr, setattr} x oneway, "
-        "through serpent/json/marshal/msgpack; plus fixed targeted shapes and is_private_attribute on ~400 names. One evaluation = one "
-        "raw INVOKE; non-trivial = member code ran or a normal result came back; distinct = distinct (shape, request, serializer).")
+RULE = ("seeded random class shapes (1-9 members: instance/static/class methods, properties with getter/setter/deleter each present or "
+        "absent and @expose on the property object or on single accessor functions, class and instance attributes, helper objects "
+        "(class exposed directly / through a base / not, callable or not), the class's own __getattr__/__getattribute__ hooks; defined in "
+        "base or registered subclass; own @expose / class-level @expose / none; functions bound under other (private) names; reserved "
+        "and public dunder names as members) x requested names (every member name, _x/__x/__x__/unicode variants, reserved dunders, "
+        "dotted paths, non-strings) x {call, batch, getattr, setattr} x oneway, through serpent/json/marshal/msgpack; histories over "
+        "2-4 same-named classes and 2-6 registered objects interleaving get_metadata calls and requests; fixed targeted shapes and "
+        "histories; is_private_attribute on ~400 names. One evaluation = one raw INVOKE or one get_metadata of a history; non-trivial "
+        "= member code ran or a normal result came back; distinct = distinct (shape(s), request, serializer).")
+
+KINDS = ("shape", "private", "history")
+
+
+def all_cases(ctx, reserved, nprivate):
+    corpus = [c for c in vlib.load_corpus(PROP) if isinstance(c, dict) and c.get("kind") in KINDS]
+    return corpus + targeted(reserved) + private_names(ctx.rng, reserved, nprivate) + gen_cases(ctx, reserved)
 
 
 def run(ctx, model_ok=True):
@@ -528,16 +798,18 @@ def run(ctx, model_ok=True):
     try:
         with quiet_threads():
             q = probe_quirks(rig)
-            res.quirks = {"q_call_runs_getter": q[0], "q_attr_private_unchecked": q[1]}
-            corpus = [c for c in vlib.load_corpus(PROP) if isinstance(c, dict) and c.get("kind") in ("shape", "private")]
-            cases = corpus + targeted(reserved) + private_names(ctx.rng, reserved, ctx.n(300, 3000)) + gen_cases(ctx, reserved)
+            res.quirks = dict(zip(QUIRK_NAMES, q))
+            cases = all_cases(ctx, reserved, ctx.n(300, 3000))
             execute(ctx, rig, cases, model_ok, res, q)
     finally:
         rig.close()
     res.rule = RULE
     shapes = [c for c in cases if c["kind"] == "shape"]
-    res.samples = [{"shape": c["shape"], "ser": c["ser"], "reqs": c["reqs"][:3]} for c in shapes[-2:] + shapes[:1]]
+    hists = [c for c in cases if c["kind"] == "history"]
+    res.samples = [{"shape": c["shape"], "ser": c["ser"], "reqs": c["reqs"][:3]} for c in shapes[-2:] + shapes[:1]] + \
+                  [{"objects": c["objects"], "ops": c["ops"][:4], "classes": len(c["shapes"])} for c in hists[-1:]]
     res.extra["shapes"] = len(shapes)
+    res.extra["histories"] = len(hists)
     return res
 
 
@@ -548,16 +820,12 @@ def search(ctx, broken):
     rig = c02impl.Rig()
     try:
         with quiet_threads():
-            cases = [b["case"] for b in broken if isinstance(b.get("case"), dict) and b["case"].get("kind") in ("shape", "private")]
-            cases += targeted(reserved) + private_names(ctx.rng, reserved, 400) + gen_cases(ctx, reserved)
+            cases = [b["case"] for b in broken if isinstance(b.get("case"), dict) and b["case"].get("kind") in KINDS]
+            cases += all_cases(ctx, reserved, 400)
             for case in cases:
                 obs = run_impl(rig, case)
                 res.seen(case)
-                if case["kind"] == "private":
-                    if obs["private"] is not None and oracle_private(case["name"]) and not obs["private"]:
-                        res.violations.append({"signature": "private-name-not-private", "what": "is_private_attribute(%r) is False" % case["name"], "case": case})
-                    continue
-                for sig, what, sub in oracle(case, obs):
+                for sig, what, sub in judge(case, obs):
                     res.violations.append({"signature": sig, "what": what, "case": sub})
     finally:
         rig.close()
@@ -568,15 +836,12 @@ def search(ctx, broken):
 
 def replay(ctx, case):
     rig = c02impl.Rig()
+    open_sigs = {k["signature"] for k in vlib.load_known() if k.get("property") == PROP and k.get("status") == "open"}
     try:
         with quiet_threads():
             q = probe_quirks(rig)
             obs = run_impl(rig, case)
-            if case["kind"] == "private":
-                bad = [("private-name-not-private", "is_private_attribute(%r) is False" % case["name"])] \
-                    if obs["private"] is not None and oracle_private(case["name"]) and not obs["private"] else []
-            else:
-                bad = [(s, w) for s, w, _ in oracle(case, obs)]
+            bad = [(s, w) for s, w, _ in judge(case, obs) if s not in open_sigs]
             if bad:
                 return True, {"oracle": bad, "impl": obs}
             res = vlib.Result()
@@ -584,7 +849,7 @@ def replay(ctx, case):
             if res.mismatches:
                 model = ""
                 if case["kind"] == "shape":
-                    model = vlib.eval_model(ctx, IMPORTS, "match (%s) with SC c => (bad_reqs c, model_meta (c_shape c), map (fun ro => model_req (c_quirks c) (c_shape c) (fst ro)) (c_reqs c)) | PC _ _ => ([], ([], [], []), []) end" % c_case(case, obs, q))
+                    model = vlib.eval_model(ctx, IMPORTS, "match (%s) with SC c => (bad_reqs c, model_meta (c_shape c), map (fun ro => model_req (c_quirks c) (c_shape c) (fst ro)) (c_reqs c)) | _ => ([], ([], [], []), []) end" % c_case(case, obs, q))
                 return True, {"mismatch": True, "impl": obs, "quirks": list(q), "model": model[-1500:]}
             return False, {"impl": obs}
     finally:
